@@ -106,6 +106,14 @@ pub fn c14(a: &Args) {
     println!("{}", json!({"texts": n, "pairs_same": same, "pairs_diff": diff, "records": nrec, "samples": samples}));
 }
 
+/// Does the stream give `!!` or `!` a prefix (a `%TAG` line whose handle is one of the two default handles)?
+fn redefines_default_handle(t: &str) -> bool {
+    t.split(['\n', '\r']).any(|l| {
+        let mut w = l.split_whitespace();
+        w.next() == Some("%TAG") && matches!(w.next(), Some("!") | Some("!!"))
+    })
+}
+
 pub fn c15(a: &Args) {
     let pool = read_pool(a.req("pool"));
     let mut w = out_file(a.req("out"));
@@ -134,8 +142,9 @@ pub fn c15(a: &Args) {
             let (tb, rb) = (&acc[ib].0, &acc[ib].1);
             let tab = format!("{ta}...\n{tb}");
             for be in 0..3 {
-                // (with keep_tags on, %TAG lines of A stay in force by design: only A without them is comparable)
-                if be == 2 && ta.contains("%TAG") {
+                // (with keep_tags on, %TAG lines of A stay in force by design. B parses alone, so every named handle it uses it
+                // declares itself, and its own declaration governs; only `!!` and `!` can be inherited: A redefining those is skipped)
+                if be == 2 && redefines_default_handle(ta) {
                     continue;
                 }
                 let rab = if be == 0 { run_str(&tab) } else if be == 1 { run_parser(&tab, Backend::Buf, Api::PushMulti) } else { run_parser_opts(&tab, Backend::Str, Api::Iter, true) };
@@ -178,7 +187,7 @@ pub fn c15(a: &Args) {
             }
             let tab = format!("{ta}...\n{tb}");
             for keep in [false, true] {
-                if keep && ta.contains("%TAG") {
+                if keep && redefines_default_handle(ta) {
                     continue;
                 }
                 for (be, api, via) in [(Backend::Str, Api::Iter, "pull/str"), (Backend::Buf, Api::PushMulti, "push/buf")] {
